@@ -61,6 +61,13 @@ CHECKS = {
             'Adjacent-double pairs straddling feature boundaries are queried in->out->in. Worlds without a cross section must refuse all five 2-D entry points with a std::exception.',
             'Non-velocity blocks are only judged at robust points (neighbours at 1e-6 scale agree); the rest is counted as skipped.',
             'DESIGN.md section 3 C09'),
+    'C15': ('model_checking', 'E2',
+            'explicit enumeration of all operation sequences up to depth 3|5 over 6 operations on twin worlds (11 feature/model combinations), plus the full product of seeds x seed sources with all-pairs comparison',
+            'For every feature type offering a random grains model (both models) every operation sequence up to the bound is executed on two worlds built alike; answers are compared bit-for-bit and the '
+            'serialised mt19937 engines must be equal after every step; every random answer is validated (orthonormal, det +1, normalised sizes, fixed sizes, per-composition bounds). Seeds {0,1,2,1000,max} '
+            'through the constructor, the file entry or both: twins agree, the file entry overrides the constructor, all pairs of distinct seeds differ.',
+            'States are the distinct engine states reached; depth bound as stated; tolerance 1e-12 for matrix validity.',
+            'DESIGN.md section 3 C15'),
 }
 NOT_YET = {}
 
